@@ -1,6 +1,6 @@
 (* C10 — property theorems only (Coulomb energies: constants, assembly, half space, pair-sum structure of the reciprocal terms). *)
 From Coq Require Import ZArith List Bool Reals.
-From PyQMC Require Import C10.Model gen.Energy_Gen C10.Proofs.
+From PyQMC Require Import base.Einsum C10.Model gen.Energy_Gen C10.Proofs.
 Import ListNotations.
 
 (* the three constants the CURRENT source adds to ee, ei and ii sum to the textbook self + neutralising-background terms of the
@@ -49,3 +49,9 @@ Print Assumptions C10_reciprocal_term_ignores_lattice_translation.
 Theorem C10_pair_term_is_even_in_G : forall t : R, cos (- t) = cos t.
 Proof. exact pair_term_even. Qed.
 Print Assumptions C10_pair_term_is_even_in_G.
+
+(* every einsum of the CURRENT ewald.py (ion-ion real space, electron-ion real space, G.r, |G|^2, reciprocal points) contracts axes of
+   the same meaning, under the axis meanings inferred from the calls that produced the operands (soundness of the typing: base/Einsum.v) *)
+Theorem C10_contractions_pair_like_axes : forallb site_typed ewald3d_sites = true /\ (5 <=? length ewald3d_sites)%nat = true.
+Proof. exact ewald3d_sites_typed. Qed.
+Print Assumptions C10_contractions_pair_like_axes.
